@@ -148,13 +148,6 @@ def run(ctx):
     stats = st["stats"]
     if st["skipped"]:
         ctx.log("scenarios the rig could not set up (no verdict): %s" % st["skipped"][:5])
-    if stats.get("runs", 0) < 0.8 * len(scens):
-        raise vlib.ToolError("only %d of %d scenarios could be driven: %s" % (stats.get("runs", 0), len(scens), st["skipped"][:5]))
-    if not stats.get("received_compressed") or not stats.get("received_1MiB_plus") or not stats.get("received_empty_body_or_tiny"):
-        raise vlib.ToolError("coverage hole (compressed / >=1MiB / tiny packets never received): %s" % stats)
-    if not stats.get("frames_held_in_encoder"):
-        raise vlib.ToolError("hook_missing: no frame was ever held at gate point enc.frame (multi-player contention not exercised)")
-
     recs = vlib.read_ndjson(ctx.path("trace.ndjson"))
     rejected, matched, tstates = ctx.validate_runs("Relay_Trace", recs)
     for rj in rejected:
@@ -162,6 +155,14 @@ def run(ctx):
         ctx.finding(key, "relay through the live proxy deviates from Relay spec at %s" % json.dumps(rj["bad"]),
                     {"scenario": rj["run"][0], "bad": rj["bad"], "bad_index": rj["bad_index"],
                      "run_tail": rj["run"][max(0, rj["bad_index"] - 6):rj["bad_index"] + 1]})
+    if not ctx.findings:
+        # coverage holes are tool trouble, but never instead of a verdict the traces already gave
+        if stats.get("runs", 0) < 0.8 * len(scens):
+            raise vlib.ToolError("only %d of %d scenarios could be driven: %s" % (stats.get("runs", 0), len(scens), st["skipped"][:5]))
+        if not stats.get("received_compressed") or not stats.get("received_1MiB_plus") or not stats.get("received_empty_body_or_tiny"):
+            raise vlib.ToolError("coverage hole (compressed / >=1MiB / tiny packets never received): %s" % stats)
+        if not stats.get("frames_held_in_encoder"):
+            raise vlib.ToolError("hook_missing: no frame was ever held at gate point enc.frame (multi-player contention not exercised)")
     cov = {
         "states": mc_states + tstates,
         "samples": st["samples"][:1] + [scens[0]],
